@@ -6,6 +6,7 @@
 /* the object tree as ghost tables: arbitrary, with children / variables listed once and knowing their parent */
 static void init_tree(void)
 {
+    havoc_heap(); /* every object field the lowered code reads - also one a change starts to read - is arbitrary */
     for (unsigned k = 0; k < HEAP_N; ++k) {
         g_nchild[k] = nondet_size_t();
         g_nvar[k] = nondet_size_t();
